@@ -73,10 +73,10 @@ func checkC04(w *World, r *Report) {
 									}
 								case e.Kind == "call" && e.Callee != nil && (e.Callee == ro.Persist || ro.callsWaitListRemoval(e.Callee)):
 								case e.Kind == "call" && isWGMethod(callCommonOf(e.In), "Add"):
-							case (e.Kind == "call" || e.Kind == "defer") && strings.Contains(e.Target, "sync.RWMutex)"):
-							case e.Kind == "call" && e.Spliced:
-								// (kept call effect of a spliced function: its body follows)
-							case e.Kind == "store" && e.Val == "true" && strings.HasPrefix(e.Target, J+".") && !strings.HasSuffix(e.Target, ".Canceled") && !strings.HasSuffix(e.Target, ".Completed"):
+								case (e.Kind == "call" || e.Kind == "defer") && strings.Contains(e.Target, "sync.RWMutex)"):
+								case e.Kind == "call" && e.Spliced:
+									// (kept call effect of a spliced function: its body follows)
+								case e.Kind == "store" && e.Val == "true" && strings.HasPrefix(e.Target, J+".") && !strings.HasSuffix(e.Target, ".Canceled") && !strings.HasSuffix(e.Target, ".Completed"):
 								// the request flag (verdict rule)
 								case e.Kind == "store" && strings.HasPrefix(e.Target, "local"):
 								case e.Kind == "call" || e.Kind == "store" || e.Kind == "mapupdate" || e.Kind == "delete" || e.Kind == "defer":
